@@ -29,10 +29,12 @@ def _model_trace(lemma, a):
                 worlds.append(self)
         S.World = W
         try:
-            if lemma == 'L1_single_process':
+            if lemma == 'L3_failed_rerun':
+                clause = H._rerun(None if a['kappa'] < 0 else a['kappa'], a['kill'], a['etype'], a['bad_suffix'])
+            elif lemma == 'L1_single_process':
                 clause = H._single(None if a['kappa'] < 0 else a['kappa'], a['kill'], a['n'])
             else:
-                clause = H._multi(None if a['kappa'] < 0 else a['kappa'], a['kill'], a['njobs'], a['empty_mask'])
+                clause = H._multi(None if a['kappa'] < 0 else a['kappa'], a['kill'], a['njobs'], a['empty_mask'], a.get('etype', 0))
         finally:
             S.World = orig_world
         w = worlds[-1]
@@ -187,6 +189,8 @@ def replay(args, outdir):
     if clause is None:
         return dict(reproduced=False, note='stub model does not reproduce')
     kind = clause.split('@')[0]
+    if lemma == 'L3_failed_rerun':
+        return _real_rerun(a, clause, crashed_at)
     if lemma != 'L1_single_process':
         # multi-process driver: replay = concrete run of the real driver code over the step model (pool, htslib merge not replayable here)
         return dict(reproduced=True, signature='%s:%s' % (lemma, clause), what='multi-process driver: %s; steps %r' % (clause, trace))
@@ -209,3 +213,31 @@ def replay(args, outdir):
     return dict(reproduced=True, signature='%s:%s@%s' % (lemma, real_clause, crashed_at),
                 what='real tag_multiome_single_thread on mini_nla_test.bam with a %s injected at step %s (occurrence %d): status file says %r, output complete/sorted/indexed = %r'
                      % ('kill' if a['kill'] else 'failure', crashed_at, occurrence, status, complete))
+
+
+def _real_rerun(a, clause, crashed_at):
+    """real command line twice onto the same -o: a good run, then a run that fails during set-up (unknown method)"""
+    import pysam
+    from singlecellmultiomics.universalBamTagger.bamtagmultiome import run_multiome_tagging_cmd
+    d = tempfile.mkdtemp(prefix='c20r', dir=os.environ.get('VERIF_SCRATCH') or None)
+    try:
+        src = '/repo/data/mini_nla_test.bam'
+        inp = os.path.join(d, 'in.bam')
+        shutil.copy(src, inp); shutil.copy(src + '.bai', inp + '.bai')
+        out = os.path.join(d, 'out.bam')
+        run_multiome_tagging_cmd([inp, '-method', 'nla', '-o', out])
+        st = out.replace('.bam', '.status.txt')
+        first = open(st).read()
+        try:
+            run_multiome_tagging_cmd([inp, '-method', 'bogus_method', '-o', out])
+            return dict(reproduced=False, note='second run did not fail')
+        except Exception:
+            pass
+        status = open(st).read()
+        exists = os.path.exists(out) and os.path.exists(out + '.bai')
+    finally:
+        shutil.rmtree(d, ignore_errors=True)
+    if status == 'Reached end. All ok!\n' and not exists:
+        return dict(reproduced=True, signature='L3_failed_rerun:stale_ok_status_output_gone',
+                    what='real CLI: successful run (status %r), then a run failing in set-up: status file still says %r while the output BAM was removed' % (first, status))
+    return dict(reproduced=False, note='real CLI: status %r output exists %r' % (status, exists))
